@@ -707,15 +707,23 @@ package gmars
 //@ extern strings.Contains
 //@   modifies nothing
 //@   ensures result == contains(s, substr)
+//@ uf replaceAll(s Str, a Str, b Str) Str
+//@ uf splitHead(s Str, sep Str) Str
+//@ uf nfields(s Str) int
+//@ uf field(s Str, i int) Str
 //@ extern strings.TrimSpace
 //@   modifies nothing
 //@ extern strings.ReplaceAll
 //@   modifies nothing
+//@   ensures result == replaceAll(s, old, new)
 //@ extern strings.Fields
 //@   modifies nothing
+//@   ensures len(result) == nfields(s) && (forall i :: 0 <= i && i < len(result) ==> result[i] == field(s, i))
 //@ extern strings.Split
 //@   modifies nothing
-//@   ensures len(sep) > 0 ==> len(result) >= 1
+//@   ensures len(sep) > 0 ==> len(result) >= 1 && result[0] == splitHead(s, sep)
+// what a load-file line denotes: the fields of the lower-cased line with its comment removed and commas blanked
+//@ pure cleanLine(raw Str) = replaceAll(ite(contains(lower(raw), ";"), splitHead(lower(raw), ";"), lower(raw)), ",", " ")
 
 //@ uf sprintf(f Str, args (Array Int Int), n int) Str
 //@ extern fmt.Sprintf
@@ -866,6 +874,7 @@ package gmars
 //@        && data.Code[iter(len(data.Code))].AMode == amode && data.Code[iter(len(data.Code))].A == aval
 //@        && data.Code[iter(len(data.Code))].BMode == bmode && data.Code[iter(len(data.Code))].B == bval
 //@        && (forall k :: 0 <= k && k < iter(len(data.Code)) ==> data.Code[k] == iter(data.Code[k]))
+//@     iteration [C09] len(fields) == nfields(cleanLine(raw_line)) && (forall k :: 0 <= k && k < len(fields) ==> fields[k] == field(cleanLine(raw_line), k))
 //@     iteration [C09] len(fields) == 2 ==> data.Start == atoi(fields[1])
 //@     exit [C10] len(fields) == 1 && fields[0] == "end"
 // leaving on a reader error: no data may be pending (a last line without a final newline is not dropped)
@@ -887,6 +896,7 @@ package gmars
 //@        && data.Code[iter(len(data.Code))].AMode == amode && data.Code[iter(len(data.Code))].A == aval
 //@        && data.Code[iter(len(data.Code))].BMode == bmode && data.Code[iter(len(data.Code))].B == bval
 //@        && (forall k :: 0 <= k && k < iter(len(data.Code)) ==> data.Code[k] == iter(data.Code[k]))
+//@     iteration [C09] len(fields) == nfields(cleanLine(raw_line)) && (forall k :: 0 <= k && k < len(fields) ==> fields[k] == field(cleanLine(raw_line), k))
 //@     iteration [C09] len(fields) == 2 ==> data.Start == atoi(fields[1])
 //@     exit [C10] fields[0] == "end"
 //@     exit header [C10][C09] len(raw_line) == 0
